@@ -201,13 +201,13 @@ class GenCtx:
             return None
         # (set names in upper, lower and mixed case, with a blank: all are plain IDENT text; 'main' and 'Main' differ)
         if p.set_names_per_type_differ:
-            return draw(st.sampled_from([None, 'S1', 'S2'] if p.upper_names else [None, 'S1', 'S2', 's1', 'Main set']))
+            return draw(st.sampled_from([None, 'S1', 'S2'] if p.upper_names else [None, 'S1', 'S2', 's1', 'Main set', '']))
         if kind == 'origin' and p.origin_sets_differ:
             return draw(st.sampled_from([None, 'ORIG-A', 'ORIG-B'] if p.upper_names else [None, 'ORIG-A', 'ORIG-B', 'orig-a']))
         if kind not in self.set_choice:
             self.set_choice[kind] = draw(st.sampled_from(
                 [None, None, 'SET-' + kind.upper()[:6]] if p.upper_names else
-                [None, None, 'SET-' + kind.upper()[:6], 'set-' + kind[:6], 'Set of ' + kind[:4]]))
+                [None, None, 'SET-' + kind.upper()[:6], 'set-' + kind[:6], 'Set of ' + kind[:4], '']))
         return self.set_choice[kind]
 
     def add(self, op):
